@@ -193,14 +193,16 @@ theorem unpackSVCB_wf {msg : Bytes} (hb : BytesWF msg) {off len prio : Nat} {t :
     · rename_i t' off2 h2
       split at h
       · simp at h
-      · rename_i l h3
-        split at h
+      · split at h
         · simp at h
-        · rename_i ps' h4
-          simp at h
-          rcases h with ⟨rfl, rfl, rfl⟩
-          exact ⟨u16At_lt hb h1, unpackName_canonical h2,
-            svcbPass2_wf l _ (svcbPass1_wf hb _ _ _ _ _ h3) h4⟩
+        · rename_i l h3
+          split at h
+          · simp at h
+          · rename_i ps' h4
+            simp at h
+            rcases h with ⟨rfl, rfl, rfl⟩
+            exact ⟨u16At_lt hb h1, unpackName_canonical h2,
+              svcbPass2_wf l _ (svcbPass1_wf hb _ _ _ _ _ h3) h4⟩
 
 theorem map_ok {α β : Type} {r : Except Err α} {f : α → β} {y : β} (h : r.map f = .ok y) :
     ∃ x, r = .ok x ∧ f x = y := by
